@@ -87,7 +87,11 @@ def gen_case(rng, tier):
             t["options"] = dict(ofam[(i + 1) % 3])
     top = gen.mk_task("", "top", "group", [t["id"] for t in tasks])
     tasks.append(top)
-    return {"hostile": realrun.hostile_choice(rng), "tasks": gen.dump(tasks), "scripts": scripts, "expect": expect, "mode": mode, "jobs": {"seq": None, "par": rng.choice([2, 3]), "nonpar-under-j": 3}[mode]}
+    case = {"hostile": realrun.hostile_choice(rng), "tasks": gen.dump(tasks), "scripts": scripts, "expect": expect, "mode": mode, "jobs": {"seq": None, "par": rng.choice([2, 3]), "nonpar-under-j": 3}[mode]}
+    if teed and rng.random() < 0.12:
+        # nobody reads Conductor's own stdout / stderr any more: forwarding cannot work, recording must
+        case["broken_stdio"] = rng.choice([[1], [2], [1, 2]])
+    return case
 
 
 def same_value(a, b):
@@ -117,7 +121,11 @@ def eval_case(case):
         # the probe parses its own argv only up to the task id; shell-active arg values are fine here
         pr = realrun.Project(sc.root, tasks, case["scripts"], hostile=case.get("hostile"))
         argv = ["run", "//:top"] + (["-j", str(case["jobs"])] if case["jobs"] else [])
-        r = pr.cond(argv, timeout=300, stall_check=True)
+        kwx = {}
+        if case.get("broken_stdio"):
+            kwx["broken_stdio"] = case["broken_stdio"]
+            bump("c10_runs_with_conductors_own_stdio_broken")
+        r = pr.cond(argv, timeout=300, stall_check=True, **kwx)
         evs = pr.events()
         slim = {"tasks": [{k: t[k] for k in ("id", "kind", "deps", "par", "args", "options")} for t in case["tasks"]], "mode": case["mode"], "jobs": case["jobs"],
                 "scripts": {k: {"exit": v["exit"], "steps": [[s[0], s[1], "<%d bytes>" % len(base64.b64decode(s[2]))] if s[0] in ("out",) else s[:2] for s in v["steps"]]} for k, v in case["scripts"].items()}}
@@ -197,7 +205,7 @@ def eval_case(case):
                         ok = isinstance(got, dict) and set(got) == set(decl) and all(same_value(got[k], decl[k]) for k in decl)
                     if not ok:
                         out["violations"].append({"key": "C10:json-record-differs", "msg": "%s: %s decodes to %r, declared %r" % (tid, fname, got, decl), "witness": W})
-        if case["mode"] != "par" and not anyfail and r.code == 0 and not out["violations"]:
+        if case["mode"] != "par" and not anyfail and r.code == 0 and not out["violations"] and not case.get("broken_stdio"):
             bump("c10_forward_checks")
             wo, we = b"".join(fwd_out), b"".join(fwd_err)
             so = ESC.sub(b"", r["stdout_bytes"])
